@@ -60,8 +60,13 @@ def rules(chk, db):
             continue
         where = '%s:%d' % (s['file'], s['loc']['l'])
         storage_fn_names.add(s['fn'].rsplit('::', 1)[-1])
-        chk.decide(bool(s['tls']) and s['local'] and s.get('fn_static'), 'S2', where,
-                   '%s::%s tls=%s static-member=%s' % (s['fn'], s['q'], s['tls'], s.get('fn_static')), function=s['fn'])
+        # ... and exactly one per (T, Slot): the owning function is a plain member of ThreadLocal<T, Slot>, not a member template
+        # (a storage function template has one object per set of template arguments, e.g. per initialiser type)
+        own_targs = s['fn'].rsplit('::', 1)[-1].find('<') >= 0
+        chk.decide(bool(s['tls']) and s['local'] and s.get('fn_static') and not own_targs, 'S2', where,
+                   '%s::%s tls=%s static-member=%s%s' % (s['fn'], s['q'], s['tls'], s.get('fn_static'),
+                                                          ' - the owning function is a TEMPLATE: the storage is keyed by its template arguments as well as (T, Slot)' if own_targs else ''),
+                   function=s['fn'])
     inst_classes = {f['rec'] for f in tl_fns}
     for rec in sorted(inst_classes):
         r = db.records.get(rec)
@@ -289,5 +294,14 @@ def run(chk, db):
     # process-wide resources: a descriptor closed twice is a write to state shared with every other thread
     from . import c17
     c17.fd_ownership(chk, db, 'S7')
+    # a failed first initialisation must not count: the value is constructed through Optional's assignment, whose exception
+    # ordering (state flag only after the element exists) is the typestate rule O; and an initialisation that throws must reach
+    # the caller instead of terminating every thread (NX on ThreadLocal)
+    from .. import tsrules
+    from . import c13
+    c13.typestate(chk, db, prefix='TS.')
+    tsrules.noexcept_rule(chk, db, 'NX', ('nop::ThreadLocal',), minimum=0,
+                          text='no ThreadLocal member is declared noexcept while constructing the value from the caller\'s arguments may throw')
+    report.selftest(chk, lambda sc, fdb: tsrules.noexcept_rule(sc, fdb, 'NX', ('nop::fx::Holder',)), 'c12.cpp', {'NX': 1})
     witness.run(chk, 'c19_slots.cpp', 'S6', 'compile-time witnesses: slot tag types denote distinct (T, Slot) pairs', minimum=10)
     report.selftest(chk, rules, 'c19.cpp', {'S1': 4, 'S2': 1, 'S3': 2, 'S4': 2, 'S5': 2})
